@@ -8,6 +8,32 @@ import (
 // c22Diff compares the emitted series with the reference; "" = equal. class names the kind of
 // disagreement (columns / series_set / series_order / row_count / row_value / row_time).
 func c22Diff(q *c22Query, exp *c22Expect, got []c22OutSeries) (class, detail string) {
+	// optional series that the engine did not emit are dropped from the expectation
+	hasOpt := false
+	for _, s := range exp.Series {
+		if s.Optional {
+			hasOpt = true
+		}
+	}
+	if hasOpt {
+		gotKeys := map[string]bool{}
+		for _, g := range got {
+			gotKeys[g.Name+"|"+c22TagString(g.Tags)] = true
+		}
+		keep := func(in []c22ExpSeries) []c22ExpSeries {
+			var out []c22ExpSeries
+			for _, s := range in {
+				if s.Optional && !gotKeys[s.Name+"|"+c22TagString(s.Tags)] {
+					continue
+				}
+				out = append(out, s)
+			}
+			return out
+		}
+		e2 := *exp
+		e2.Series, e2.AllSeries = keep(exp.Series), keep(exp.AllSeries)
+		exp = &e2
+	}
 	weakN := exp.WeakSeriesOrder && (q.SLimit > 0 || q.SOff > 0)
 	if weakN && q.SLimit > 0 && len(got) > q.SLimit {
 		return "series_count", fmt.Sprintf("SLIMIT %d but %d series returned %s", q.SLimit, len(got), c22GotSeriesNames(got))
@@ -16,7 +42,7 @@ func c22Diff(q *c22Query, exp *c22Expect, got []c22OutSeries) (class, detail str
 		return "series_count", fmt.Sprintf("want %d series %s, got %d %s", len(exp.Series), c22ExpSeriesNames(exp.Series), len(got), c22GotSeriesNames(got))
 	}
 	series := exp.Series
-	if q.Desc || exp.WeakSeriesOrder {
+	if q.Desc || exp.WeakSeriesOrder || q.UnorderedSeries {
 		pool := exp.Series
 		if exp.WeakSeriesOrder {
 			pool = exp.AllSeries
